@@ -602,6 +602,50 @@ fn alloc_views_probe(rep: &mut Report) {
             diplomat_free(p, size, align);
         }
     }
+    // every diplomat_alloc / diplomat_free pair gives the block back (also the zero-sized ones the JS runtime makes
+    // for empty strings and lists): counted by the harness's allocator
+    {
+        let o = crate::alloctrack::tracked(|| unsafe {
+            for (size, align) in [(0usize, 1usize), (0, 2), (0, 4), (0, 8), (1, 1), (6, 2), (24, 8), (0, 1)] {
+                let p = diplomat_alloc(size, align);
+                diplomat_free(p, size, align);
+            }
+        });
+        rep.oracle_runs += 1;
+        rep.count("probe:alloc-free-pairs");
+        if o.double_frees > 0 || o.leaked > 0 {
+            rep.oracle_fail("(c16 probe alloc-free-pairs)", "a diplomat_alloc / diplomat_free pair does not release the block exactly once", json!({"released_twice": o.double_frees, "never_released": o.leaked}));
+        }
+    }
+    // an owned view {NULL, 0} (what C hands over for an empty list) becomes an empty box: non-null and aligned for T
+    {
+        use diplomat_runtime::DiplomatOwnedSlice;
+        fn null_box<T: std::fmt::Debug>(name: &str, rep: &mut Report) {
+            #[repr(C)]
+            struct Raw<T> { ptr: *mut T, len: usize }
+            rep.oracle_runs += 1;
+            rep.count("probe:owned-null-views");
+            let v: DiplomatOwnedSlice<T> = unsafe { std::mem::transmute_copy(&Raw::<T> { ptr: std::ptr::null_mut(), len: 0 }) };
+            let b: Box<[T]> = v.into();
+            let addr = b.as_ptr() as usize;
+            let (len, align) = (b.len(), std::mem::align_of::<T>());
+            std::mem::forget(b); // an ill-formed box must not reach the allocator
+            if len != 0 || addr == 0 || addr % align != 0 {
+                rep.oracle_fail(&format!("(c16 probe owned-null-view {name})"), "an owned {NULL, 0} view does not become a valid empty box (non-null, aligned for the element type)", json!({"address": addr, "len": len, "align": align}));
+            }
+        }
+        null_box::<u8>("u8", rep); null_box::<bool>("bool", rep); null_box::<u16>("u16", rep); null_box::<i16>("i16", rep);
+        null_box::<u32>("u32", rep); null_box::<f32>("f32", rep); null_box::<u64>("u64", rep); null_box::<f64>("f64", rep);
+        null_box::<usize>("usize", rep); null_box::<u128>("u128", rep);
+        // … and the string flavour
+        rep.oracle_runs += 1;
+        let s: diplomat_runtime::DiplomatOwnedUTF8StrSlice = unsafe { std::mem::transmute_copy(&(std::ptr::null_mut::<u8>(), 0usize)) };
+        let b: Box<str> = s.into();
+        if !b.is_empty() || b.as_ptr().is_null() {
+            rep.oracle_fail("(c16 probe owned-null-view str)", "an owned {NULL, 0} string view does not become a valid empty Box<str>", json!({"address": b.as_ptr() as usize, "len": b.len()}));
+        }
+        std::mem::forget(b);
+    }
     for len in [0usize, 0, 1, 3, 17] {
         one::<u8>("u8", len, 0xA5, rep);
         one::<bool>("bool", len, true, rep);
